@@ -47,8 +47,13 @@ def rc_of(cfg):
 def solve(net, cfg, permute=True):
     ss = build.build_static(net, rc_of(cfg), permute=permute)
     assert ss.PFlow.config.method == cfg['method'] and ss.PFlow.solver.sparselib == cfg['sparselib']
-    ok = ss.PFlow.run()
-    res = dict(ok=bool(ok), exit_code=ss.exit_code)
+    raised = None
+    try:
+        ok = ss.PFlow.run()
+    except Exception as e:        # a raised exception is a (loud) report of failure, not a convergence claim
+        ok = False
+        raised = type(e).__name__
+    res = dict(ok=bool(ok), exit_code=ss.exit_code, raised=raised)
     V = {}
     for i, idx in enumerate(ss.Bus.idx.v):
         V[opf._key(idx)] = (float(ss.Bus.v.v[i]), float(ss.Bus.a.v[i]))
@@ -203,7 +208,7 @@ def body_factory(ctx):
         normal = bool(ok_ref and np.all(np.abs(Vref) >= 0.9) and np.all(np.abs(Vref) <= 1.1))
         ctx.count('ref:' + ('normal' if normal else ('solved_abnormal' if ok_ref else 'unsolved')))
         if not res['ok']:
-            ctx.count('andes:not_converged')
+            ctx.count('andes:not_converged' + (':raised_' + res['raised'] if res.get('raised') else ''))
             if normal:
                 ctx.fail('must_converge', dict(method=cfg['method'], lib=cfg['sparselib'], tol=cfg['tol'],
                                                flat=cfg['flat']),
